@@ -33,8 +33,15 @@ static char g_dir[512];
 int __real_open64(const char *p, int fl, ...);
 int __real_open(const char *p, int fl, ...);
 
+/* set by every logged call that can touch the file system / environment / cwd; c18/restore rebuilds the marker files only
+ * then (and every 64th time regardless): ~30 syscalls per call of a core binding were most of the sweep's run time */
+static volatile int g_dirty = 1;
+static int g_restores = 0;
+
 static void logcall(const char *name, const char *fmt, ...) {
     if (g_logfd < 0) return;
+    if (strcmp(name, "MARK") && strcmp(name, "clock_gettime") && strcmp(name, "mmap") && strcmp(name, "mmap64") &&
+        strcmp(name, "mprotect") && strcmp(name, "getenv") && strcmp(name, "sigaction") && strcmp(name, "dlsym")) g_dirty = 1;
     char buf[1400], det[1100];
     va_list ap;
     va_start(ap, fmt);
@@ -117,6 +124,8 @@ static Janet c18_restore(int32_t argc, Janet *argv) {
     (void) argv;
     janet_fixarity(argc, 0);
     char p[700], q[700];
+    if (!g_dirty && (++g_restores & 63)) return janet_wrap_nil();
+    g_dirty = 0;
     put("m.txt", "marker\n"); put("m2.txt", "marker2\n"); put("m.janet", "(def marker-loaded 1)\n");
     snprintf(p, sizeof p, "%s/md", g_dir); __real_mkdir(p, 0755);
     snprintf(p, sizeof p, "%s/md2", g_dir); __real_mkdir(p, 0755);
